@@ -44,7 +44,8 @@ pub fn entry_json(e: &cfb::Entry, dict: &Dict) -> Value {
         "p": dict.path_ids(e.path()),
         "n": if e.is_root() { "Root Entry".to_string() } else { dict.id_of(e.name()) },
         "k": kind,
-        "l": if e.len() < 0x7FFF_FFFF { e.len() as i64 } else { -9 },
+        // (is_empty() is the same statement as len() == 0: a disagreement is logged as a length no entry has)
+        "l": if e.is_empty() != (e.len() == 0) { -7 } else if e.len() < 0x7FFF_FFFF { e.len() as i64 } else { -9 },
         "c": e.clsid().as_bytes().iter().map(|b| format!("{:02x}", b)).collect::<String>(),
         "b": format!("{:08x}", e.state_bits()),
         "ct": time_json(e.created()),
